@@ -121,6 +121,10 @@ RetViol(e) ==
                       \cup (IF e.err THEN {} ELSE Check(x.prop, "value-equals-exact-evaluation-of-specified-formula", Has(e, "floatOK") /\ e.floatOK))
                  ELSE {})
                 \cup (IF Has(x, "reqs") THEN Check(x.prop, "requests-as-specified", reqs = x.reqs) ELSE {})
+                \* C10: whatever is transmitted during a call - first transmission or retransmission - is one of the requests
+                \* the call stands for
+                \cup (IF Has(x, "reqs") /\ Len(x.reqs) > 0 /\ x.prop \in {"C06", "C10"}
+                      THEN Check("C10", "every-transmission-is-a-request-of-the-call", \A i \in 1..Len(reqs) : \E j \in 1..Len(x.reqs) : reqs[i] = x.reqs[j]) ELSE {})
                 \* C03's last clause: inside a session the decrypted payloads are exactly the commands the caller asked for
                 \cup (IF Has(x, "reqs") /\ InSess /\ ~(Has(x, "sessionless") /\ x.sessionless) /\ x.prop = "C06"
                       THEN Check("C03", "decrypted-payloads-are-exactly-the-commands-asked-for", reqs = x.reqs) ELSE {})
@@ -131,6 +135,10 @@ NewViol == LET e == Ev IN
   ELSE IF e.ev = "ret" /\ Has(e, "exp") THEN RetViol(e)
   ELSE IF e.ev = "ret" THEN Check("C05", "no-panic-no-hang", ~Has(e, "panic") /\ ~Has(e, "hang"))
   ELSE IF e.ev \in {"harnessError", "prefixFailed"} THEN Check("HARNESS", e.ev, FALSE)
+  \* results the caller was handed earlier in the script, looked at again after everything that followed: a decoded
+  \* response is the caller's own value (C07), and nothing that arrives later may show up in it (C17)
+  ELSE IF e.ev = "held" THEN Check("C07", "a-decoded-response-keeps-its-values-when-later-responses-arrive", e.changed = <<>>)
+                             \cup Check("C17", "a-decoded-response-keeps-its-values-when-later-responses-arrive", e.changed = <<>>)
   ELSE IF e.ev = "metrics" /\ prevM # NoM /\ mcall.kind # "none"
        THEN LET bad == BadKeys(prevM, e.m, mcall) IN
             IF bad = {} THEN {} ELSE {[prop |-> "C18", pred |-> "counters-change-by-exactly-what-happened",
